@@ -298,9 +298,19 @@ var streamCount = map[*ssa.Function]int{}
 
 // streamRun desugars src.Run(ctx, P, M) into a nondeterministic loop cut at the stream invariant.
 func (e *Exec) streamRun(fr *Frame, st *BState, x *ssa.Call) SV {
+	outerBody := 0
 	c := x.Call
 	streamCount[fr.fn]++
 	ord := streamCount[fr.fn]
+	// outer() in the stream's clauses: the head state of the loop that encloses the Run call, if any
+	var outerHead *BState
+	for l2, hs := range e.loopHeads {
+		if l2.body[x.Block()] && hs != nil {
+			if outerHead == nil || len(l2.body) < outerBody {
+				outerHead, outerBody = hs, len(l2.body)
+			}
+		}
+	}
 	var invs []Clause
 	if ct := e.contractOf(fr.fn); ct != nil {
 		invs = ct.StreamInv[ord]
@@ -321,6 +331,7 @@ func (e *Exec) streamRun(fr *Frame, st *BState, x *ssa.Call) SV {
 	// init
 	for i, inv := range invs {
 		env := e.specEnv(fr, st, nil)
+		env.outerSt = outerHead
 		e.obligeNamed(st, fmt.Sprintf("stream%d.%s.init", ord, clauseLabel(inv, "inv", i)), x.Pos(), scal(env.evalGoal(inv.Expr)))
 	}
 	// havoc what the callbacks may write + ghost traces
@@ -412,11 +423,13 @@ func (e *Exec) streamRun(fr *Frame, st *BState, x *ssa.Call) SV {
 	e.note(fmt.Sprintf("stream %d of %s: havoc %v", ord, fr.fn.Name(), havocd))
 	for _, inv := range invs {
 		env := e.specEnv(fr, st, nil)
+		env.outerSt = outerHead
 		e.assume(implies(st.reach, scal(env.eval(inv.Expr))))
 	}
 	if ct := e.contractOf(fr.fn); ct != nil {
 		for _, a := range ct.StreamAssume[ord] {
 			env := e.specEnv(fr, st, nil)
+		env.outerSt = outerHead
 			e.assume(implies(st.reach, scal(env.eval(a.Expr))))
 		}
 	}
@@ -437,6 +450,7 @@ func (e *Exec) streamRun(fr *Frame, st *BState, x *ssa.Call) SV {
 		if ct := e.contractOf(fr.fn); ct != nil {
 			for _, a := range ct.StreamAssume[ord] {
 				env := e.specEnv(fr, s, nil)
+		env.outerSt = outerHead
 				e.assume(implies(s.reach, scal(env.eval(a.Expr))))
 			}
 		}
@@ -467,6 +481,7 @@ func (e *Exec) streamRun(fr *Frame, st *BState, x *ssa.Call) SV {
 		if ct := e.contractOf(fr.fn); ct != nil {
 			for i, sc := range ct.StreamStep[ord][inTrace] {
 				env := e.specEnv(fr, out, nil)
+		env.outerSt = outerHead
 				env.oldSt = post
 				env.bound["stepErr"] = errv
 				e.obligeNamed(out, fmt.Sprintf("stream%d.step[%s].%s", ord, inTrace, strings.TrimPrefix(clauseLabel(sc, "step", i)[len("step"):], ".")), token.NoPos, scal(env.evalGoal(sc.Expr)))
@@ -477,6 +492,7 @@ func (e *Exec) streamRun(fr *Frame, st *BState, x *ssa.Call) SV {
 		bs.reach = and(out.reach, not(isErr))
 		for i, inv := range invs {
 			env := e.specEnv(fr, bs, nil)
+		env.outerSt = outerHead
 			e.obligeNamed(bs, fmt.Sprintf("stream%d.%s.preserved[%s]", ord, clauseLabel(inv, "inv", i), inTrace), token.NoPos, scal(env.evalGoal(inv.Expr)))
 		}
 		// exit with the callback's error (wrapped): result non-nil
